@@ -17,6 +17,19 @@ environment.  `gen_programs` generates well-formed whole programs mixing all mod
 import binascii, io, math, re, struct
 import core
 
+# what a check that calls this library adds to its own constants
+GEN = ["Registry", "Units", "Tokens"]
+LEAN_MODULES = ["KaVerif.Props.Pipeline"]
+THEOREMS = ["KaVerif.PIPE_dispatch_table", "KaVerif.PIPE_arith", "KaVerif.PIPE_arith_or_refuses", "KaVerif.PIPE_arith_exact",
+            "KaVerif.PIPE_text_arith", "KaVerif.PIPE_text_arith_min_full", "KaVerif.PIPE_text_arith_lexed",
+            "KaVerif.PIPE_statements", "KaVerif.PIPE_session", "KaVerif.PIPE_qty_ops", "KaVerif.PIPE_array_sum"]
+RULE = ("whole programs (1-4 statements, depth <= 4) mixing arithmetic on ints / fractions / floats / scientific and based literals, "
+        "variables and assignments across ';', factorials and binomials, quantities with units / prefixes / compound signatures / "
+        "temperatures and 'to', intervals and their functions, arrays / ranges / comprehensions / aggregates, comparisons incl. chained "
+        "and backward ones, membership, elementary functions, strings; random redundant parentheses and whitespace; ~15 % deliberately "
+        "ill-typed, ~4 % syntactically damaged; plus sessions of 2-5 inputs against one environment; each through the real "
+        "execute() (status, exact output text, class of the diagnosed error, marker position) and through the unified Lean model")
+
 # ----------------------------------------------------------------------------
 # the real side
 # ----------------------------------------------------------------------------
@@ -152,9 +165,28 @@ def check_constants(ctx):
     ctx.correspond("evalconst", [("evalconst -", real if ok_tf else "CONSTANTS changed: %r" % (E.CONSTANTS,), "eval.CONSTANTS")])
 
 
+class _PltStub:
+    """recording stand-in for matplotlib.pyplot (what the plotting library does is outside the model)"""
+    def __getattr__(self, name):
+        return self
+
+    def __call__(self, *a, **k):
+        return self
+
+
+def _stub_plots():
+    try:
+        import ka.plot as KP
+        if not isinstance(getattr(KP, "plt", None), _PltStub) and type(getattr(KP, "plt", None)).__name__ != "PltStub":
+            KP.plt = _PltStub(); KP.ticker = _PltStub(); KP.load_pyplot = lambda: None
+    except Exception:  # noqa
+        pass
+
+
 def run(ctx, texts, stream_name="run", features=None, min_modelled=0.5, timeout=5.0):
     """texts: list of str, or of (str, feature-tag list).  Returns coverage statistics."""
     R = ctx.real
+    _stub_plots()
     items = [(t, ()) if isinstance(t, str) else (t[0], tuple(t[1])) for t in texts]
     cases, reals = [], []
     for text, tags in items:
@@ -210,6 +242,7 @@ def run(ctx, texts, stream_name="run", features=None, min_modelled=0.5, timeout=
 def run_sessions(ctx, sessions, stream_name="runsess", timeout=5.0):
     """sessions: list of lists of texts; each list is run against ONE environment, in order."""
     R = ctx.real
+    _stub_plots()
     cases = []
     for inputs in sessions:
         inputs = [t for t in inputs if "\n" not in t and "\r" not in t and ";" not in _hex(t)]
@@ -240,6 +273,13 @@ def run_sessions(ctx, sessions, stream_name="runsess", timeout=5.0):
     stats["disagreements"] = len(bad)
     ctx.cov.setdefault("pipeline", {})[stream_name] = dict(stats)
     return stats
+
+
+def check(ctx, n_programs, n_sessions):
+    """the standard whole-program run: generated programs + generated sessions; returns both statistics"""
+    a = run(ctx, gen_programs(ctx.rng, n_programs))
+    b = run_sessions(ctx, gen_sessions(ctx.rng, n_sessions))
+    return dict(programs=a, sessions=b)
 
 
 # ----------------------------------------------------------------------------
